@@ -53,14 +53,10 @@ def verify(name):
         cmd = cmd.replace("<worktree>", wt).replace("<repo>", wt)
         # place demo files when the command does not copy them itself
         if "cp " not in cmd:
+            m = re.search(r"go test[^\n]*?\s\./([\w/]+?)/?(?:\.\.\.)?(?:\s|$)", cmd)
+            sub = m.group(1) if m else "seeddemo_%s" % meta.get("label", "a")
             for f in os.listdir(d):
-                if f.endswith("_test.go") or f.endswith(".go"):
-                    run_md = open(os.path.join(d, "RUN.md")).read() if os.path.exists(os.path.join(d, "RUN.md")) else ""
-                    m = re.search(r"([\w/]+)/%s" % re.escape(f), run_md)
-                    sub = "seeddemo_%s" % meta.get("label", "a")
-                    if m:
-                        sub = m.group(1).split(wt + "/")[-1].split("/tmp/seed-%s/" % pid)[-1].split("<worktree>/")[-1].strip("/")
-                        sub = sub.split("/")[-1] if sub.startswith("/") else sub
+                if f.endswith(".go"):
                     os.makedirs(os.path.join(wt, sub), exist_ok=True)
                     shutil.copy(os.path.join(d, f), os.path.join(wt, sub, f))
         if not cmd.strip().startswith("cd "):
